@@ -102,7 +102,7 @@ func (ip *IndexPos) loadChunk() error {
 	// is being loaded
 	if ip.curChunkID == ip.nullChunk.ID {
 		ip.curChunk = ip.nullChunk.Data
-		return nil
+		return ip.checkChunkSize()
 	}
 	chunk, err := ip.Store.GetChunk(ip.curChunkID)
 	if err != nil {
@@ -113,6 +113,17 @@ func (ip *IndexPos) loadChunk() error {
 		return err
 	}
 	ip.curChunk = b
+	return ip.checkChunkSize()
+}
+
+// checkChunkSize makes sure the chunk that was loaded has the size the index
+// expects, positions in the stream are calculated from the index.
+func (ip *IndexPos) checkChunkSize() error {
+	c := ip.Index.Chunks[ip.curChunkIdx]
+	if c.Size != uint64(len(ip.curChunk)) {
+		ip.curChunk = nil
+		return fmt.Errorf("unexpected size for chunk %s", c.ID.String())
+	}
 	return nil
 }
 
